@@ -18,6 +18,15 @@ CHECKS = {
             "Trusted: the Python reference model (vlib/m_text.py), the harness's recording of match lists, gcc "
             "sanitizers. Ambiguous fullword delimiters are accepted either way.",
             "DESIGN.md section 2, C01"),
+    "C02": ("exploration",
+            "reference-model oracle over recorded match lists (runtime monitoring under ASan/UBSan/LSan)",
+            "Every generated (hex pattern, buffer) pair runs in the real engine under sanitizers; reported offsets and "
+            "lengths are compared with a set-of-positions matcher over the hex AST that has no atoms, no chaining and "
+            "no backtracking. Buffers are built from satisfying instances and near-misses around every jump bound and "
+            "on both sides of the 200-byte chaining threshold.",
+            "Trusted: vlib/m_hex.py model and generator; patterns keep every un-split piece below 700 bytes. One "
+            "known finding (chained patterns with a variable-length piece) is suppressed by class.",
+            "DESIGN.md section 2, C02"),
 }
 
 NOT_YET = "check not built yet in this round (planned in DESIGN.md section 2); nothing is claimed for it"
